@@ -100,6 +100,19 @@ def assignedIn : Nat → List Stmt → List String
        (branches.map (fun b => assignedIn fuel b.2)).flatten ++ assignedIn fuel els
      | _ => []) ++ assignedIn fuel rest
 
+/-- does a macro body use `caller()` (anywhere but inside a nested macro definition)?  A macro that does not cannot be the
+    target of a call block (`Macro.__call__` raises TypeError) -/
+def usesCaller : Nat → List Stmt → Bool
+  | 0, _ => false
+  | _ + 1, [] => false
+  | fuel + 1, s :: rest =>
+    (match s with
+     | .callerOut => true
+     | .ifs branches els => branches.any (fun b => usesCaller fuel b.2) || usesCaller fuel els
+     | .for_ _ _ _ body els => usesCaller fuel body || usesCaller fuel els
+     | .setBlock _ body | .with_ _ body | .filterBlock _ body | .callBlock _ _ body => usesCaller fuel body
+     | _ => false) || usesCaller fuel rest
+
 /-! ## state helpers -/
 
 def setVar (vars : List (String × Val)) (n : String) (v : Val) : List (String × Val) :=
@@ -198,182 +211,180 @@ def applyBlockFilter (fname : String) (s : String) : Except Err String :=
 /-- errors carry the `quirk` flag of the moment they were raised -/
 abbrev R := Except (Err × Bool) (St × String × Sig)
 
+/-- the interpreter for statement lists with less fuel (the recursive call) -/
+abbrev Runner := St → List Stmt → R
+
+/-- run `body` in a fresh scope `f` on top of `base`, then drop that scope: only namespace cells and the quirk flag survive -/
+def inScope (rn : Runner) (base : St) (f : Frame) (body : List Stmt) : R :=
+  match rn (base.push f) body with
+  | .ok (st', out, sig) => .ok ({ base with ns := st'.ns, quirk := st'.quirk }, out, sig)
+  | .error e => .error e
+
+/-- the first branch whose condition is truthy (conditions are evaluated in order, in the current scope), else `els` -/
+def pickBranch (ctxVars : List (String × Val)) (els : List Stmt) :
+    St → List (Expr × List Stmt) → Except (Err × Bool) (St × List Stmt)
+  | st, [] => .ok (st, els)
+  | st, (c, body) :: more =>
+    let st := noteReads st (exprNames c)
+    match evalIn st ctxVars c with
+    | .ok v => if truth v then .ok (st, body) else pickBranch ctxVars els st more
+    | .error err => .error (err, st.quirk)
+
+/-- parameters that received no argument: the default (evaluated in the call scope, in order) or undefined -/
+def bindDefaults (ctxVars : List (String × Val)) : St → List (String × Option Expr) → Except (Err × Bool) St
+  | stc, [] => .ok stc
+  | stc, (p, some e) :: more =>
+    let stc := noteReads stc (exprNames e)
+    (match evalIn stc ctxVars e with
+     | .ok v => bindDefaults ctxVars (stc.bind p v) more
+     | .error err => .error (err, stc.quirk))
+  | stc, (p, none) :: more => bindDefaults ctxVars (stc.bind p (.undef p)) more
+
+/-- `m(args)`: arguments are evaluated in the caller's scope; the body runs over the scopes the macro was written in -/
+def callMacroWith (rn : Runner) (ctxVars : List (String × Val)) (fuelA : Nat) (st : St) (name : String) (args : List Expr)
+    (caller : Option CallerDef) : Except (Err × Bool) (St × String) :=
+  let st := noteReads st (exprNamesList args)
+  match evalListIn st ctxVars args with
+  | .error e => .error (e, st.quirk)
+  | .ok argVals =>
+    match lookupMacro st.frames name with
+    | none => (match lookupFrames st.frames name, ctxVars.find? (·.1 == name) with
+               | none, none => .error (.undefinedError, st.quirk)
+               | _, _ => .error (.oom, st.quirk))
+    | some m =>
+      if args.length > m.params.length then .error (.typeError, st.quirk) else
+      if caller.isSome && !usesCaller fuelA m.body then .error (.typeError, st.quirk) else
+      let closure : St := { st with frames := closureFrames st.frames m.depth }
+      let bound := (m.params.zip argVals).map (fun p => (p.1.1, p.2))
+      let f0 : Frame := { vars := bound.reverse, caller := caller, assigns := assignedIn fuelA m.body }
+      match bindDefaults ctxVars (closure.push f0) (m.params.drop argVals.length) with
+      | .error e => .error e
+      | .ok stc =>
+        match rn stc m.body with
+        | .ok (st', out, _) => .ok ({ st with ns := st'.ns, quirk := st'.quirk }, out)
+        | .error e => .error e
+
+/-- the iterations of a loop: one fresh scope per item; the filter sees the target in a scope of its own -/
+def forLoop (rn : Runner) (ctxVars : List (String × Val)) (fuelA : Nat) (target : String) (filt : Option Expr) (body : List Stmt) :
+    St → String → Bool → List Val → Except (Err × Bool) (St × String × Bool)
+  | st, acc, ran, [] => .ok (st, acc, ran)
+  | st, acc, ran, item :: more =>
+    let keep : Except (Err × Bool) (St × Bool) :=
+      match filt with
+      | none => .ok (st, true)
+      | some fe =>
+        let stf := noteReads (st.push { vars := [(target, item)] }) (exprNames fe)
+        (match evalIn stf ctxVars fe with
+         | .ok v => .ok ({ st with quirk := stf.quirk }, truth v)
+         | .error err => .error (err, stf.quirk))
+    match keep with
+    | .error err => .error err
+    | .ok (st, false) => forLoop rn ctxVars fuelA target filt body st acc ran more
+    | .ok (st, true) =>
+      match inScope rn st { vars := [(target, item)], assigns := assignedIn fuelA body } body with
+      | .error err => .error err
+      | .ok (st', out, .brk) => .ok (st', acc ++ out, true)
+      | .ok (st', out, _) => forLoop rn ctxVars fuelA target filt body st' (acc ++ out) true more
+
+/-- one statement -/
+def step (rn : Runner) (ctxVars : List (String × Val)) (fuelA : Nat) (st : St) : Stmt → R
+  | .text t => .ok (st, t, .normal)
+  | .out e =>
+    let st := noteReads st (exprNames e)
+    (match evalIn st ctxVars e with
+     | .ok v => .ok (st, pyStr v, .normal)
+     | .error err => .error (err, st.quirk))
+  | .ifs branches els =>
+    (match pickBranch ctxVars els st branches with
+     | .ok (st, body) => rn st body
+     | .error err => .error err)
+  | .set n e =>
+    let st := noteReads st (exprNames e)
+    (match evalIn st ctxVars e with
+     | .ok v => .ok (st.bind n v, "", .normal)
+     | .error err => .error (err, st.quirk))
+  | .setBlock n body =>
+    (match inScope rn st { assigns := assignedIn fuelA body } body with
+     | .ok (st', out, _) => .ok (st'.bind n (.str out), "", .normal)
+     | .error err => .error err)
+  | .with_ binds body =>
+    let st := noteReads st ((binds.map (fun b => exprNames b.2)).flatten)
+    (match evalBindsIn st ctxVars binds with
+     | .ok bs => inScope rn st { vars := bs.reverse, assigns := assignedIn fuelA body } body
+     | .error err => .error (err, st.quirk))
+  | .filterBlock fname body =>
+    (match inScope rn st { assigns := assignedIn fuelA body } body with
+     | .ok (st', out, sig) =>
+       (match applyBlockFilter fname out with
+        | .ok o => .ok (st', o, sig)
+        | .error err => .error (err, st'.quirk))
+     | .error err => .error err)
+  | .macro n params body =>
+    .ok (st.bindMacro n { params := params, body := body, depth := st.frames.length }, "", .normal)
+  | .callMacro n args =>
+    (match callMacroWith rn ctxVars fuelA st n args none with
+     | .ok (st', out) => .ok (st', out, .normal)
+     | .error err => .error err)
+  | .callBlock n args body =>
+    (match callMacroWith rn ctxVars fuelA st n args (some { body := body, depth := st.frames.length }) with
+     | .ok (st', out) => .ok (st', out, .normal)
+     | .error err => .error err)
+  | .callerOut =>
+    (match lookupCaller st.frames with
+     | none => .error (.oom, st.quirk)      -- `caller` outside a call block: undefined / a context variable; outside the fragment
+     | some c =>
+       let closure : St := { st with frames := closureFrames st.frames c.depth }
+       (match rn (closure.push { assigns := assignedIn fuelA c.body }) c.body with
+        | .ok (st', out, _) => .ok ({ st with ns := st'.ns, quirk := st'.quirk }, out, .normal)
+        | .error err => .error err))
+  | .nsNew n inits =>
+    let st := noteReads st ((inits.map (fun b => exprNames b.2)).flatten)
+    (match evalBindsIn st ctxVars inits with
+     | .ok bs =>
+       let id := st.ns.length
+       let cell := bs.foldl (fun acc p => setVar acc p.1 p.2) []
+       .ok (({ st with ns := st.ns ++ [cell] } : St).bind n (.obj id), "", .normal)
+     | .error err => .error (err, st.quirk))
+  | .nsSet nsName attr e =>
+    let st := noteReads st (nsName :: exprNames e)
+    (match evalIn st ctxVars (.name nsName), evalIn st ctxVars e with
+     | .ok (.obj id), .ok v =>
+       (match st.ns[id]? with
+        | some cell => .ok ({ st with ns := st.ns.set id (setVar cell attr v) }, "", .normal)
+        | none => .error (.oom, st.quirk))
+     | .ok (.obj _), .error err => .error (err, st.quirk)
+     | .ok _, _ => .error (.oom, st.quirk)     -- attribute assignment on something that is no namespace: TemplateRuntimeError
+     | .error err, _ => .error (err, st.quirk))
+  | .break_ => .ok (st, "", .brk)
+  | .continue_ => .ok (st, "", .cont)
+  | .for_ target iter filt body els =>
+    let st := noteReads st (exprNames iter)
+    (match evalIn st ctxVars iter with
+     | .error err => .error (err, st.quirk)
+     | .ok iv =>
+       match seqItems iv with
+       | .error err => .error (err, st.quirk)
+       | .ok items =>
+         match forLoop rn ctxVars fuelA target filt body st "" false items with
+         | .error err => .error err
+         | .ok (st', out, true) => .ok (st', out, .normal)
+         | .ok (st', out, false) =>
+           (match inScope rn st' { assigns := assignedIn fuelA els } els with
+            | .ok (st'', out', sig) => .ok (st'', out ++ out', sig)
+            | .error err => .error err))
+
 /-- **the reference interpreter** (fuel bounds macro recursion; running out of fuel is `oom`) -/
 def run (ctxVars : List (String × Val)) : Nat → St → List Stmt → R
   | 0, st, _ => .error (.oom, st.quirk)
   | _ + 1, st, [] => .ok (st, "", .normal)
   | fuel + 1, st, s :: rest =>
-    -- continue with the rest of the list after a statement that produced `out` in state `st'`
-    let andThen (r : R) : R :=
-      match r with
-      | .error e => .error e
-      | .ok (st', out, .normal) =>
-        (match run ctxVars fuel st' rest with
-         | .ok (st'', out', sig) => .ok (st'', out ++ out', sig)
-         | .error e => .error e)
-      | .ok (st', out, sig) => .ok (st', out, sig)
-    -- run `body` in a fresh scope `f` on top of `base`, then drop that scope; only namespaces and the quirk flag survive
-    let inScope (base : St) (f : Frame) (body : List Stmt) : R :=
-      match run ctxVars fuel (base.push f) body with
-      | .ok (st', out, sig) => .ok ({ base with ns := st'.ns, quirk := st'.quirk }, out, sig)
-      | .error e => .error e
-    let callMacroWith (st : St) (name : String) (args : List Expr) (caller : Option CallerDef) : Except (Err × Bool) (St × String) :=
-      let st := noteReads st (exprNamesList args)
-      -- arguments are evaluated first (in the caller's scope), then the callee is inspected
-      match evalListIn st ctxVars args with
-      | .error e => .error (e, st.quirk)
-      | .ok argVals =>
-      match lookupMacro st.frames name with
-      | none => (match lookupFrames st.frames name, ctxVars.find? (·.1 == name) with
-                 | none, none => .error (.undefinedError, st.quirk)
-                 | _, _ => .error (.oom, st.quirk))
-      | some m =>
-        if args.length > m.params.length then .error (.typeError, st.quirk) else
-          -- the call runs over the closure's scopes; parameters without argument take their default, evaluated in order
-          -- inside the call scope, or are undefined
-          let closure : St := { st with frames := closureFrames st.frames m.depth }
-          let bound := (m.params.zip argVals).map (fun p => (p.1.1, p.2))
-          let f0 : Frame := { vars := bound.reverse, caller := caller, assigns := assignedIn fuel m.body }
-          let rec defaults (fuel' : Nat) (stc : St) : List (String × Option Expr) → Except (Err × Bool) St
-            | [] => .ok stc
-            | (p, d) :: more =>
-              match fuel' with
-              | 0 => .error (.oom, stc.quirk)
-              | fuel'' + 1 =>
-                match d with
-                | some e =>
-                  let stc := noteReads stc (exprNames e)
-                  (match evalIn stc ctxVars e with
-                   | .ok v => defaults fuel'' (stc.bind p v) more
-                   | .error e => .error (e, stc.quirk))
-                | none => defaults fuel'' (stc.bind p (.undef p)) more
-          match defaults (m.params.length + 1) (closure.push f0) (m.params.drop argVals.length) with
-          | .error e => .error e
-          | .ok stc =>
-            match run ctxVars fuel stc m.body with
-            | .ok (st', out, _) => .ok ({ st with ns := st'.ns, quirk := st'.quirk }, out)
-            | .error e => .error e
-    match s with
-    | .text t => andThen (.ok (st, t, .normal))
-    | .out e =>
-      let st := noteReads st (exprNames e)
-      (match evalIn st ctxVars e with
-       | .ok v => andThen (.ok (st, pyStr v, .normal))
-       | .error err => .error (err, st.quirk))
-    | .ifs branches els =>
-      let rec pick (fuel' : Nat) (st : St) : List (Expr × List Stmt) → Except (Err × Bool) (St × List Stmt)
-        | [] => .ok (st, els)
-        | (c, body) :: more =>
-          match fuel' with
-          | 0 => .error (.oom, st.quirk)
-          | fuel'' + 1 =>
-            let st := noteReads st (exprNames c)
-            match evalIn st ctxVars c with
-            | .ok v => if truth v then .ok (st, body) else pick fuel'' st more
-            | .error err => .error (err, st.quirk)
-      (match pick (branches.length + 1) st branches with
-       | .ok (st, body) => andThen (run ctxVars fuel st body)
-       | .error err => .error err)
-    | .set n e =>
-      let st := noteReads st (exprNames e)
-      (match evalIn st ctxVars e with
-       | .ok v => andThen (.ok (st.bind n v, "", .normal))
-       | .error err => .error (err, st.quirk))
-    | .setBlock n body =>
-      (match inScope st { assigns := assignedIn fuel body } body with
-       | .ok (st', out, _) => andThen (.ok (st'.bind n (.str out), "", .normal))
-       | .error err => .error err)
-    | .with_ binds body =>
-      let st := noteReads st ((binds.map (fun b => exprNames b.2)).flatten)
-      (match evalBindsIn st ctxVars binds with
-       | .ok bs =>
-         (match inScope st { vars := bs.reverse, assigns := assignedIn fuel body } body with
-          | .ok (st', out, sig) => andThen (.ok (st', out, sig))
-          | .error err => .error err)
-       | .error err => .error (err, st.quirk))
-    | .filterBlock fname body =>
-      (match inScope st { assigns := assignedIn fuel body } body with
-       | .ok (st', out, sig) =>
-         (match applyBlockFilter fname out with
-          | .ok o => andThen (.ok (st', o, sig))
-          | .error err => .error (err, st'.quirk))
-       | .error err => .error err)
-    | .macro n params body =>
-      andThen (.ok (st.bindMacro n { params := params, body := body, depth := st.frames.length }, "", .normal))
-    | .callMacro n args =>
-      (match callMacroWith st n args none with
-       | .ok (st', out) => andThen (.ok (st', out, .normal))
-       | .error err => .error err)
-    | .callBlock n args body =>
-      (match callMacroWith st n args (some { body := body, depth := st.frames.length }) with
-       | .ok (st', out) => andThen (.ok (st', out, .normal))
-       | .error err => .error err)
-    | .callerOut =>
-      (match lookupCaller st.frames with
-       | none => .error (.oom, st.quirk)          -- `caller` outside a call block: undefined / a context variable; outside the fragment
-       | some c =>
-         let closure : St := { st with frames := closureFrames st.frames c.depth }
-         (match run ctxVars fuel (closure.push { assigns := assignedIn fuel c.body }) c.body with
-          | .ok (st', out, _) => andThen (.ok ({ st with ns := st'.ns, quirk := st'.quirk }, out, .normal))
-          | .error err => .error err))
-    | .nsNew n inits =>
-      let st := noteReads st ((inits.map (fun b => exprNames b.2)).flatten)
-      (match evalBindsIn st ctxVars inits with
-       | .ok bs =>
-         let id := st.ns.length
-         let cell := bs.foldl (fun acc p => setVar acc p.1 p.2) []
-         andThen (.ok (({ st with ns := st.ns ++ [cell] } : St).bind n (.obj id), "", .normal))
-       | .error err => .error (err, st.quirk))
-    | .nsSet nsName attr e =>
-      let st := noteReads st (nsName :: exprNames e)
-      (match evalIn st ctxVars (.name nsName), evalIn st ctxVars e with
-       | .ok (.obj id), .ok v =>
-         (match st.ns[id]? with
-          | some cell => andThen (.ok ({ st with ns := st.ns.set id (setVar cell attr v) }, "", .normal))
-          | none => .error (.oom, st.quirk))
-       | .ok (.obj _), .error err => .error (err, st.quirk)
-       | .ok _, _ => .error (.oom, st.quirk)           -- assignment to an attribute of something that is no namespace: TemplateRuntimeError
-       | .error err, _ => .error (err, st.quirk))
-    | .break_ => .ok (st, "", .brk)
-    | .continue_ => .ok (st, "", .cont)
-    | .for_ target iter filt body els =>
-      let st := noteReads st (exprNames iter)
-      (match evalIn st ctxVars iter with
-       | .error err => .error (err, st.quirk)
-       | .ok iv =>
-         match seqItems iv with
-         | .error err => .error (err, st.quirk)
-         | .ok items =>
-           -- one fresh scope per iteration; the filter sees the target in a scope of its own
-           let rec loop (fuel' : Nat) (st : St) (acc : String) (ran : Bool) : List Val → Except (Err × Bool) (St × String × Bool)
-             | [] => .ok (st, acc, ran)
-             | item :: more =>
-               match fuel' with
-               | 0 => .error (.oom, st.quirk)
-               | fuel'' + 1 =>
-                 let keep : Except (Err × Bool) (St × Bool) :=
-                   match filt with
-                   | none => .ok (st, true)
-                   | some fe =>
-                     let stf := noteReads (st.push { vars := [(target, item)] }) (exprNames fe)
-                     (match evalIn stf ctxVars fe with
-                      | .ok v => .ok ({ st with quirk := stf.quirk }, truth v)
-                      | .error err => .error (err, stf.quirk))
-                 match keep with
-                 | .error err => .error err
-                 | .ok (st, false) => loop fuel'' st acc ran more
-                 | .ok (st, true) =>
-                   match inScope st { vars := [(target, item)], assigns := assignedIn fuel body } body with
-                   | .error err => .error err
-                   | .ok (st', out, .brk) => .ok (st', acc ++ out, true)
-                   | .ok (st', out, _) => loop fuel'' st' (acc ++ out) true more
-           match loop (items.length + 1) st "" false items with
-           | .error err => .error err
-           | .ok (st', out, true) => andThen (.ok (st', out, .normal))
-           | .ok (st', out, false) =>
-             (match inScope st' { assigns := assignedIn fuel els } els with
-              | .ok (st'', out', sig) => andThen (.ok (st'', out ++ out', sig))
-              | .error err => .error err))
+    match step (run ctxVars fuel) ctxVars fuel st s with
+    | .error e => .error e
+    | .ok (st', out, .normal) =>
+      (match run ctxVars fuel st' rest with
+       | .ok (st'', out', sig) => .ok (st'', out ++ out', sig)
+       | .error e => .error e)
+    | .ok (st', out, sig) => .ok (st', out, sig)
 
 def initSt (body : List Stmt) : St :=
   { frames := [{ assigns := assignedIn 1000 body }], ns := [], quirk := false }
